@@ -120,6 +120,9 @@ def gen_universe(rng, uid, profile):
         problem["soft"] = [rng.randrange(len(solvables)) for _ in range(k)]
     u = {"id": uid, "packages": pkgs, "solvables": solvables, "version_sets": vsets, "unions": unions,
          "problem": problem}
+    if profile.get("async"):
+        # C10: completion orders of the outstanding provider requests: oldest first, newest first, two pseudo-random
+        u["async_policies"] = [0, 1, 2 + rng.randrange(100), 102 + rng.randrange(100)]
     if profile.get("snapshot"):
         u["snapshot"] = True
     if profile.get("reuse"):
@@ -160,6 +163,10 @@ FAMILIES = {
     # C16: what the snapshot format represents (no favored / locked); root requirements are single version sets because
     # from_provider() takes names, version sets and solvables as capture roots - unions are captured from dependencies
     "snapshot": dict(BASE, p_favored=0, p_locked=0, root_single=True, snapshot=True, p_union=0.3, max_unions=3),
+    # C10: the same problems through an asynchronous provider under four completion orders
+    "async": dict(BASE, **{"async": True}),
+    "asynchard": dict(max_pkg=8, min_pkg=5, max_cand=3, p_favored=0.1, p_union=0.15, p_vs_empty=0.02, max_vs=4, p_hint_all=0.2,
+                      n_req=[1, 2, 2, 3], n_con=[0, 1, 1, 2], n_root_req=[2, 3, 4], n_root_con=[0, 1], **{"async": True}),
     "soft": dict(BASE, soft=True),
     # several soft requirements competing for few packages, many Unknown / excluded solvables
     "softx": dict(BASE, soft=True, n_soft=[2, 3, 4], max_pkg=3, p_unknown=0.2, p_excluded=0.3, p_locked=0.05, p_missing_pkg=0.05),
@@ -295,6 +302,26 @@ class Stats:
         self.graphs = 0
 
 
+CVC5_EVERY = 499       # every 499th query is re-asked to cvc5 (a second solver, once per run per ~500 queries)
+
+
+def _cvc5_agrees(s, assumptions, z3_sat):
+    s2 = z3.Solver()
+    for f in s.assertions():
+        s2.add(f)
+    for a in assumptions:
+        s2.add(a)
+    text = "(set-logic ALL)\n" + s2.to_smt2()
+    try:
+        p = subprocess.run(["cvc5", "--lang", "smt2"], input=text, capture_output=True, text=True, timeout=120)
+    except (OSError, subprocess.TimeoutExpired) as e:
+        raise RuntimeError("cvc5 cross-check could not run: %s" % e)
+    out = p.stdout.strip().split("\n")
+    if "(error" in p.stdout or p.returncode != 0 or not out or out[0] not in ("sat", "unsat"):
+        raise RuntimeError("cvc5 cross-check inconclusive: %s %s" % (p.stdout[:200], p.stderr[:200]))
+    return (out[0] == "sat") == z3_sat
+
+
 def _check(stats, kind, fmls, assumptions=()):
     s = z3.Solver()
     s.set("timeout", 60000)
@@ -307,6 +334,10 @@ def _check(stats, kind, fmls, assumptions=()):
     stats.by_kind[kind] = stats.by_kind.get(kind, 0) + 1
     if r == z3.unknown:
         raise RuntimeError("z3 returned unknown for a %s query: %s" % (kind, s.reason_unknown()))
+    if stats.queries % CVC5_EVERY == 0:
+        stats.cvc5_checked = getattr(stats, "cvc5_checked", 0) + 1
+        if not _cvc5_agrees(s, assumptions, r == z3.sat):
+            raise RuntimeError("z3 and cvc5 disagree on a %s query" % kind)
     return r == z3.sat, s
 
 
@@ -534,7 +565,7 @@ def check_dump(u, sp, hard, soft, res, d, stats, spec_f):
             viol.append({"prop": "C15", "what": "forbid clauses of package p%d mention solvables of another package: vars %s" % (name, wrong)})
         G = [F(c) for c in cs]
         if len(svars) >= 2:
-            two, _ = _check(stats, "amo-q1", G + [z3.AtLeast(*[V[v] for v in svars], 2)])
+            two, _ = _check(stats, "amo-q1", G + [z3.Or([z3.And(V[a], V[b]) for a, b in itertools.combinations(svars, 2)])])
             if two:
                 viol.append({"prop": "C15", "what": "forbid clauses of package p%d allow two candidates together (%d registered)" % (name, len(svars))})
                 viol.append({"prop": "C01", "what": "forbid clauses of package p%d allow two candidates together" % name})
@@ -703,6 +734,47 @@ def check_graph(u, sp, hard, g, stats):
     if sat:
         bad("the facts shown in the conflict graph admit a selection that installs the root (the report is not a proof)")
     # bounded output (C04): rendering sizes are linear-ish in the graph
+    return viol
+
+
+def check_async(u, problem, live, runs, stats):
+    """C10: every completion order gives the synchronous verdict (= z3's), a valid solution, no duplicate provider
+    requests and no deadlock."""
+    viol = []
+    if not runs:
+        return viol
+    sp = Spec(u)
+    full = [f for _, f in sp.full(dict(problem, soft=[]))]
+    spec_sat, _ = _check(stats, "spec-sat", full)
+    for r in runs:
+        label = "completion order policy %d" % r["policy"]
+        if r["result"] == "panic":
+            msg = r.get("message", "")
+            what = "never completes (deadlock)" if "deadlock" in msg else "panicked: %s" % msg[:160]
+            viol.append({"prop": "C10", "what": "asynchronous solve under %s %s" % (label, what)})
+            continue
+        if r["result"] not in ("ok", "unsolvable"):
+            viol.append({"prop": "C10", "what": "asynchronous solve under %s returned %s" % (label, r["result"])})
+            continue
+        if (r["result"] == "ok") != spec_sat:
+            viol.append({"prop": "C10", "what": "asynchronous solve under %s returned %s but z3 says the problem is %s" % (
+                label, r["result"], "satisfiable" if spec_sat else "unsatisfiable")})
+            continue
+        if live["result"] in ("ok", "unsolvable") and live["result"] != r["result"]:
+            viol.append({"prop": "C10", "what": "asynchronous solve under %s returned %s, the synchronous run %s" % (label, r["result"], live["result"])})
+        if r["result"] == "ok":
+            sol = set(r["solution"])
+            ok, _ = _check(stats, "model", full, [sp.X[i] if i in sol else z3.Not(sp.X[i]) for i in sp.X])
+            if not ok:
+                viol.append({"prop": "C10", "what": "solution %s of the asynchronous solve under %s is not valid" % (sorted(sol), label)})
+        seen = set()
+        for c in r["calls"]:
+            if c[0] in (5, 6):
+                if tuple(c) in seen:
+                    viol.append({"prop": "C10", "what": "asynchronous solve under %s asked the provider twice for the %s %d" % (
+                        label, "candidates of package" if c[0] == 5 else "dependencies of solvable", c[1])})
+                    break
+                seen.add(tuple(c))
     return viol
 
 
